@@ -1,5 +1,5 @@
 """C06: connections are never shared across origins (level: proof of an inductive invariant)."""
-from core import norm, L_call, L_variant, CallSite, closure_arg_of
+from core import norm, L_call, L_variant, CallSite, closure_arg_of, sig
 from mir import op_place, place_str
 import pool
 
@@ -69,6 +69,7 @@ def C06_1(ctx, facts):
             f = cand
     if f is None:
         return ctx.missing("anchor", "impl TryFrom<&http::request::Parts> for UriKey not found")
+    f = facts.unit(f, expand=True)
     ctx.touched(f)
     aggs = f.aggregates("client::pool::key::UriKey")
     ctx.floor("UriKey::try_from|ctor", len(aggs), 1, "UriKey constructions in try_from(&Parts)")
@@ -82,6 +83,13 @@ def C06_1(ctx, facts):
             any(r.kind == "arg" and r.desc.endswith("parts.uri") for r in r1)
         ctx.check(ok0, "UriKey::try_from|scheme", "key field 0 derives from parts.uri.scheme()", "key field 0 roots: %s" % sorted(map(repr, r0)), f.where(b))
         ctx.check(ok1, "UriKey::try_from|authority", "key field 1 derives from parts.uri.authority()", "key field 1 roots: %s" % sorted(map(repr, r1)), f.where(b))
+        # the key is the scheme and the authority *as they are*: on the way into the key they only pass through accessors
+        # and clones.  Any other call (parsing, slicing, rebuilding, normalising) could map two origins to one key.
+        IDENT = r"(Clone.*::clone$|::cloned$|::as_ref$|::as_deref$|Uri::scheme$|Uri::authority$|Uri::into_parts$|Uri::from_parts$|Result.*::unwrap$|::to_owned$|Option.*::(map|and_then|ok_or_else|ok_or)$|Try.*::branch$|from_residual$|Uri::clone$|Request.*::uri$)"
+        import re as _re
+        odd = sorted({norm(r.site.name) for r in (r0 | r1) if r.kind == "call" and not _re.search(IDENT, norm(r.site.name))})
+        ctx.check(not odd, "UriKey::try_from|fields-unmodified", "scheme and authority enter the key unmodified (only accessors and clones on the way)",
+                  "the key fields are computed through %s: distinct origins may collapse into one key" % odd, f.where(b))
         foreign = [r for r in (r0 | r1) if r.kind == "arg" and not r.desc.startswith("parts")]
         ctx.check(not foreign, "UriKey::try_from|only-parts", "the key depends on nothing but the request parts", "key also depends on %s" % foreign, f.where(b))
     adt = facts.adt("client::pool::key::UriKey")
@@ -161,11 +169,12 @@ def C06_3(ctx, facts):
     ctx.floor("Token|mint-sites", len(sites), 2, "constructions of Token")
     ins = facts.fn("client::pool::key::TokenMap::insert")
     ctx.touched(ins)
+    ins_family = {g.key for g in facts.family(ins, depth=3)}
     for (g, b, s) in sites:
         nk = g.nkey
-        ok = nk == "client::pool::key::Token::zero" or g.d.get("parent") == ins.key or nk.startswith("<client::pool::key::Token as ")
+        ok = nk == "client::pool::key::Token::zero" or g.key in ins_family or nk.startswith("<client::pool::key::Token as ")
         ctx.check(ok, "Token|minted-in|%s" % nk, "Token constructed only in Token::zero / TokenMap::insert", "Token constructed in %s" % nk, g.where(b))
-        if g.d.get("parent") == ins.key:
+        if g.key in ins_family and nk != "client::pool::key::Token::zero":
             o = s["r"]["ops"][0]
             rr = g.roots(o)
             ctx.check(any(r.kind == "arg" and "counter" in r.desc for r in rr), "TokenMap::insert|fresh-from-counter",
@@ -174,7 +183,9 @@ def C06_3(ctx, facts):
             adv = False
             for bb in g.live:
                 for st in g.stmts(bb):
-                    if st["k"] == "assign" and any(isinstance(e, dict) and (e.get("n") or "").endswith("counter") for e in st["p"]["p"]):
+                    is_counter = st["k"] == "assign" and (any(isinstance(e, dict) and (e.get("n") or "").endswith("counter") for e in st["p"]["p"]) or
+                                                          (st["p"]["p"] == ["*"] and g.locals[st["p"]["l"]].startswith("&mut std::num::NonZero")))
+                    if is_counter:
                         rr2 = g.roots(st["r"]["o"]) if st["r"]["k"] == "use" else set()
                         if any(r.kind == "call" and r.site.matches(r"checked_add|NonZero.*::(checked_add|saturating_add)") for r in rr2):
                             adv = True
@@ -186,21 +197,38 @@ def C06_3(ctx, facts):
         rr = z.roots(s["r"]["ops"][0])
         ctx.check(any(r.kind == "agg" and r.desc.endswith("::None") for r in rr), "Token::zero|is-None", "Token::zero() is Token(None), distinct from every minted Token(Some(_))",
                   "Token::zero() is not None: %s" % sorted(map(repr, rr)), z.where(b))
-    # insert returns entry(key).or_insert_with(..)
-    rr = ins.roots({"l": 0, "p": []})
-    ow = [r for r in rr if r.kind == "call" and r.site.matches(r"Entry.*::or_insert_with$")]
-    en = [r for r in rr if r.kind == "call" and r.site.matches(r"HashMap.*::entry$")]
-    ok = bool(ow) and bool(en)
+    # insert in normal form (or_insert_with is expanded to the match on the Entry it abbreviates; an explicit
+    # `match self.map.entry(key) { Occupied(e) => *e.get(), Vacant(v) => *v.insert(mint()) }` is the same thing):
+    # an occupied entry answers the stored token, a token is minted - and stored - only for a vacant entry
+    iu = facts.unit(ins, expand=True)
+    en = [c for c in iu.calls() if c.matches(r"HashMap.*::entry$")]
+    ok = len(en) == 1
     if ok:
-        e = en[0].site
-        kr = ins.roots(e.args[1], through_calls=False)
-        mr = ins.roots(e.args[0])
+        e = en[0]
+        kr = iu.roots(e.args[1], through_calls=False)
+        mr = iu.roots(e.args[0])
         ok = any(r.kind == "arg" and r.desc == "key" for r in kr) and any(r.kind == "arg" and r.desc == "self.map" for r in mr)
-    ctx.check(ok, "TokenMap::insert|entry-or-insert", "insert returns *self.map.entry(key).or_insert_with(mint): equal keys get the stored token",
-              "TokenMap::insert does not return map.entry(key).or_insert_with(..): roots %s" % sorted(map(repr, rr)), ins.where())
+    rr = iu.roots({"l": 0, "p": []})
+    ok = ok and any(r.kind == "call" and r.site.matches(r"HashMap.*::entry$") for r in rr)
+    ctx.check(ok, "TokenMap::insert|entry-or-insert", "insert answers through self.map.entry(key): equal keys get the stored token",
+              "TokenMap::insert does not answer through map.entry(key): roots %s" % sorted(map(repr, sig(rr)))[:8], ins.where())
+    eb = {c.bb for c in en}
+    vacant = lambda lab: lab.kind == "variant" and lab.variants == {"Vacant"} and any(r.kind == "call" and r.site.bb in eb for r in iu.roots({"l": lab.place["l"], "p": []}, through_calls=False))
+    mints = [(b_, s_) for (b_, i_, s_) in iu.aggregates(TOKEN_TY)]
+    ctx.floor("TokenMap::insert|mint-in-unit", len(mints), 1, "token mint sites in insert")
+    for (b_, s_) in mints:
+        g, w = iu.guarded(b_, vacant)
+        ctx.check(g, "TokenMap::insert|mint-only-if-vacant", "a token is minted only on the Vacant edge of the entry (a known key keeps its token)",
+                  "a token can be minted for a key that already has one", iu.where(b_), iu.path_desc(w))
+    vins = [c for c in iu.calls() if c.matches(r"VacantEntry.*::insert$|VacantEntry.*::insert_entry$")]
+    ctx.floor("TokenMap::insert|vacant-insert", len(vins), 1, "storing of the minted token in the vacant entry")
+    for c in vins:
+        rv = iu.roots(c.args[1])
+        ctx.check(any(r.kind == "arg" and "counter" in r.desc for r in rv), "TokenMap::insert|stored-is-minted", "what is stored for a new key is the freshly minted token",
+                  "stored value roots %s" % sorted(map(repr, sig(rv)))[:6], c.where())
     # nothing else writes TokenMap.map / counter
     for g in facts.fns.values():
-        if g.key == ins.key or g.d.get("parent") == ins.key or g.nkey.startswith("<client::pool::key::TokenMap as std::default::Default>"):
+        if g.key in ins_family or g.d.get("parent") in ins_family or g.nkey.startswith("<client::pool::key::TokenMap as std::default::Default>"):
             continue
         for c in g.calls():
             tys = c.t.get("argtys") or []
@@ -232,7 +260,7 @@ def C06_3(ctx, facts):
                     ctx.bad("%s|tokenmap-overwritten" % g.nkey, "a TokenMap is overwritten in place: tokens already handed out would be issued again to other keys", g.where(b))
                 if pl["p"] and isinstance(pl["p"][-1], dict) and (pl["p"][-1].get("n") or "").endswith("counter") and not ctor:
                     base_ty = lty
-                    if "TokenMap" in base_ty or g.d.get("parent") == ins.key:
+                    if "TokenMap" in base_ty or g.d.get("parent") == ins.key or g.key in ins_family:
                         rr2 = g.roots(r["o"]) if r["k"] == "use" else set()
                         adv = any(x.kind == "call" and x.site.matches(r"checked_add|saturating_add") for x in rr2)
                         ctx.check(adv, "%s|counter-store-advances" % g.nkey, "every store to the token counter is an advance of its previous value",
